@@ -4,4 +4,5 @@ CONSTANTS
   Dom <- DomEdgeT
   ClampBug = TRUE
   SizeBug = FALSE
+  DefBug = FALSE
 INVARIANTS AtEnd
